@@ -93,7 +93,7 @@ ALARM_TEXT = {
 # property -> definition
 NOFAULT = {ENV_FAULT, ENV_SLOW, ENV_EXT, ENV_FORCED, ENV_CRASH}
 
-def _mk(fams, codes, env_excl=(), props="Props/Sim.v", gen=(), code_env=None):
+def _mk(fams, codes, env_excl=(), props=None, gen=("GenGuards.v", "GenConfig.v"), code_env=None):
     return dict(fams=fams, codes=set(codes), env_excl=set(env_excl), props=props, gen=list(gen), code_env=code_env or {})
 
 
@@ -181,6 +181,8 @@ def signature(pid, code, idx, trace):
 
 def sim_check(pid, tier, seed, extra_assumptions=()):
     d = SIM[pid]
+    if not d.get("props"):
+        d["props"] = "Props/%s.v" % pid
     res = Result(pid, tier, seed)
     t0 = time.time()
     with vlib.Lock():
@@ -257,7 +259,7 @@ def _evaluate(pid, d, res, results, tier):
                     seen_known[sig] = kf[0]["text"]
                 elif sig not in viol_sigs:
                     viol_sigs[sig] = (r, i, c, tr)
-        gh = [(i, c) for i, c in r["guards"] if (c // 100) in GUARD_OWNERS.get(pid, ())]
+        gh = [(i, c) for i, c in r["guards"] if c in GUARD_OWNERS.get(pid, ())]
         if gh and applicable:
             key = gh[0][1]
             if key not in guard_fail:
@@ -273,8 +275,8 @@ def _evaluate(pid, d, res, results, tier):
         res.violations.append(("%s [%s] in scenario %s at event %d" % (ALARM_TEXT.get(c, "?"), sig, r["name"], i), obj))
     for key, (r, i, tr) in list(guard_fail.items())[:3]:
         lo = max(0, i - 15)
-        res.tie_broken.append("correspondence: the implementation's trace is not admitted by the protocol model (rule %d) in scenario %s at event %d: %s"
-                              % (key, r["name"], i, " / ".join(tr[lo:i + 1][-6:])))
+        res.tie_broken.append("correspondence: the implementation's trace is not admitted by the protocol model (rule %d: %s) in scenario %s at event %d: %s"
+                              % (key, RULE_TEXT.get(key, "?"), r["name"], i, " / ".join(tr[lo:i + 1][-6:])))
     for sig, text in seen_known.items():
         res.known.append("%s %s" % (sig, text))
     sample = []
@@ -298,7 +300,24 @@ def _evaluate(pid, d, res, results, tier):
     return res.finish()
 
 
-GUARD_OWNERS = {}
+ALL_STORE_RULES = {2001, 2002, 2004, 2005, 2006, 2007, 2009, 2010, 2011, 2012, 2013, 2020, 2021, 2022, 2050, 2052, 2060, 2061}
+GUARD_OWNERS = {
+    "C01": ALL_STORE_RULES, "C05": {2002, 2003, 2004}, "C10": {2005}, "C13": {2032, 2006, 2005}, "C09": {2030, 2040, 2041},
+    "C08": {2042, 2043, 2044, 2045, 2046}, "C07": {2031}, "C02": {2012, 2032, 2031},
+}
+RULE_TEXT = {
+    2001: "a store call targets the instance's own group key", 2002: "a Create publishes the issuer's id, priority and a non-empty token",
+    2003: "the payload of an acquisition attempt is fresh (never used, token not carried by any other value)",
+    2004: "a refresh publishes the issuer's id with a (token, revision) pair it held while claiming",
+    2005: "a takeover Update follows the issuer's own successful read, against that revision, with takeover enabled and strictly lower stored priority",
+    2006: "Updates are issued only by the heartbeat and the takeover path", 2007: "Delete is issued only by StopWithContext",
+    2012: "linearisation points follow the store contract", 2013: "a read returns the live value", 2022: "a non-faulty return reports the applied outcome",
+    2030: "a stopped election does not raise the claim", 2031: "the claim is not raised twice", 2032: "the claim follows the claimant's own successful write",
+    2040: "a stopped election stays stopped", 2041: "a successful stop leaves the election STOPPED",
+    2042: "the promotion callback is entered while its term is alive", 2043: "one promotion callback per term",
+    2044: "a demotion callback only when one is owed", 2045: "the claim is raised only when no demotion callback is owed",
+    2046: "a term that ends has had its promotion callback entered",
+}
 
 
 def sim_replay(pid, path):
